@@ -143,7 +143,7 @@ def classify(root, mod, idx, prog):
 def explains(model, m):
     d = m.detail or ""
     if model == "distinct-sum-type-switch":
-        return m.case.key.startswith("c11/distinct") and m.kind == "compiler-panic"
+        return m.case.key.startswith("c11/distinct DW") and m.kind == "compiler-panic" and "entered unreachable code" in (m.detail or "")
     if model == "variant-mismatch-in-tail-panics":
         return "is not weak replaceable by" in d
     if model == "comptime-in-generic-todo":
